@@ -16,6 +16,23 @@ CHECKS = [
           "compared with the band formula in Fractions.",
   "note": "Trusts exact decimal unit scales of astropy units and Fractions; tolerance 8 ulp of max(|fc|, n*bw) per nesting level.",
   "technique": "explicit-state enumeration of slicing sequences (depth 3) on real objects with state de-duplication, exact rational band model"},
+ {"property_id": "C03",
+  "text": "Bounded exhaustive exploration of time_shift on the real code: N in {1..16} (to 32 thorough, primes included) x 4 dtypes x "
+          "5-6 sample shapes x EVERY broadcastable shift-array shape (scalar, each prefix with axes full or length 1) x 17 uniform "
+          "+ 5 mixed-sign fillings x number/Quantity form x crop on/off; input is a complete basis (e_j, i e_j), which determines "
+          "the linear operator on every input, plus payload and a linearity check. Oracle: long-double DFT delay operator per "
+          "element, exact 0.0 on out-of-range rows, crop=True == crop=False minus edges.",
+  "note": "Trusts the O(N^2) long-double DFT built from the definition (self-tested against numpy.fft); budget 16*eps32; Nyquist-bin "
+          "convention for complex even-N fractional shifts left open.",
+  "technique": "bounded exhaustive enumeration of configurations on the real code, complete-basis operator identification against a long-double DFT reference model"},
+ {"property_id": "C04",
+  "text": "Bounded exhaustive exploration of freq_shift: N in {1..16} (32 thorough) x complex64/128 x 4-5 channel/pol shapes x 3-5 "
+          "rates/units x every broadcastable shift shape x 15 uniform + 4 mixed fillings (whole, fractional, |b|>=N); complete "
+          "basis + payload; each element compared with the long-double mix/DFT/zero/IDFT reference and the wrapped bins of the "
+          "output spectrum must vanish; error contract (TypeError/ValueError).",
+  "note": "Trusts the long-double DFT reference; budget 64*eps(dtype)*N; the single boundary bin is open when the exact shift is "
+          "within 1e-9 of, but not equal to, a whole bin.",
+  "technique": "bounded exhaustive enumeration of configurations on the real code, complete-basis operator identification against a long-double DFT reference model"},
  {"property_id": "C18",
   "text": "Exhaustive enumeration on the real functions: every N below 2^20 (quick) / 2^23 (thorough), N in {s-1,s,s+1} around "
           "7-smooth s below 2^62, and fast_len on every signal length 0..200 of every class; each result compared with an "
